@@ -246,3 +246,9 @@ package journal
 //@   ensures !old(d in j.days) ==> fresh(result) && dom(j.days) == upd(old(dom(j.days)), d, true) && vals(j.days) == upd(old(vals(j.days)), d, result)
 //@        && len(result.Prices) == 0 && len(result.Openings) == 0 && len(result.Transactions) == 0 && len(result.Assertions) == 0 && len(result.Closings) == 0
 //
+//
+// CompareDays: days are ordered by date; the days of a builder have distinct dates (wfBuilder), so
+// they never tie.
+//@ func CompareDays
+//@   requires d != nil && d2 != nil
+//@   ensures [C06] [C05] @lex: result == (d.Date < d2.Date ? 0 - 1 : (d.Date == d2.Date ? 0 : 1))
